@@ -2,7 +2,7 @@ import PhyModel.Proofs.Gibbs
 import PhyModel.Model.Moves
 import PhyModel.Proofs.MovesDpBlock3
 import PhyModel.Proofs.MovesPrBlock4
-import PhyModel.Proofs.PGSub5
+import PhyModel.Proofs.PGSub7
 import PhyModel.Proofs.PGSubExample
 import PhyModel.Proofs.PGExample
 /-! # C04 — data-point, prune-regraft and subtree moves preserve the same posterior
@@ -304,6 +304,46 @@ example : (∀ k, PG.HypD PG.subData (PG.subCfg k) [1, 2, 3]) ∧ PG.RegionOK PG
     PG.subTree ∈ PGSpec.finals (PG.subCfg .semi) [1, 2, 3] ∧
     (PGSpec.finals (PG.subCfg .semi) [1, 2, 3]).eraseDups.length = 42 := by
   refine ⟨PG.subHypD, PG.subRegionOK, PG.subRemGood, ?_, ?_⟩ <;> decide +kernel
+
+/-- **Every region the move can choose is an instance of the conditional statement.**  For a well-formed
+tree `x` (`PG.WFT`: canonical, no empty clone, distinct data below the sentinel, no outliers when outlier
+modelling is off) with positive likelihoods and any clone data point `i`: with
+`(region, rem, gk) = Moves.regionOf x i`, `xs = T.mk' region x.out` the subtree `subtreeMove` hands to
+`subtreeGiven` and `D = region.all ++ x.out` its data — `D` satisfies `PG.HypD`, `PG.RegionOK rem gk D`
+holds, the data of `rem` are good, `xs = ⟨region, x.out⟩` is one of the complete subtrees on `D`, and
+`graftBack rem gk xs = x`: the current tree is the full tree of the subtree that is extracted. -/
+theorem subtree_region_ok (dt : Data) (c : Proposal.Cfg) (x : T) (w : PG.WFT c x) (hG : 0 < dt.G)
+    (hα : 0 < c.α) (op0 : 0 ≤ c.op) (op1 : c.op < 1) (hup : c.usePerm = true)
+    (hgood : ∀ j ∈ x.f.all ++ x.out, C19P.GoodIdx dt j) (i : ℕ) (hi : i ∈ x.f.all) :
+    PG.HypD dt c ((regionOf x i).1.all ++ x.out) ∧
+    PG.RegionOK (regionOf x i).2.1 (regionOf x i).2.2 ((regionOf x i).1.all ++ x.out) ∧
+    (∀ j ∈ (regionOf x i).2.1.all, C19P.GoodIdx dt j) ∧
+    T.mk' (regionOf x i).1 x.out = ⟨(regionOf x i).1, x.out⟩ ∧
+    T.mk' (regionOf x i).1 x.out ∈ PGSpec.finals c ((regionOf x i).1.all ++ x.out) ∧
+    graftBack (regionOf x i).2.1 (regionOf x i).2.2 (T.mk' (regionOf x i).1 x.out) = x :=
+  PG.regionOf_ok w hG hα op0 op1 hup hgood hi
+
+/-- **The conditional statement at every region of every well-formed tree**: for the region selected
+through any clone data point `i` of any well-formed tree `x₀`, `Moves.subtreeGiven` leaves
+`y ↦ pOne (graftBack rem gk y)` invariant on the complete subtrees of the region's data. -/
+theorem subtree_conditional_invariant_at_region (dt : Data) (c : Proposal.Cfg) (x₀ : T) (w : PG.WFT c x₀)
+    (hG : 0 < dt.G) (hα : 0 < c.α) (op0 : 0 ≤ c.op) (op1 : c.op < 1) (hup : c.usePerm = true)
+    (hgood : ∀ j ∈ x₀.f.all ++ x₀.out, C19P.GoodIdx dt j) (i : ℕ) (hi : i ∈ x₀.f.all) (θ : ℚ) (m : ℕ)
+    (y : PG.St (PGSpec.allStates c ((regionOf x₀ i).1.all ++ x₀.out)))
+    (hy : y.1 ∈ PGSpec.finals c ((regionOf x₀ i).1.all ++ x₀.out)) :
+    ∑ x : PG.St (PGSpec.allStates c ((regionOf x₀ i).1.all ++ x₀.out)),
+        PG.piR dt c ((regionOf x₀ i).1.all ++ x₀.out) (regionOf x₀ i).2.1 (regionOf x₀ i).2.2 x.1 *
+        Dist.E (subtreeGiven (PG.runOf dt c m θ) (regionOf x₀ i).2.1 (regionOf x₀ i).2.2 x.1)
+          (fun z => if z = graftBack (regionOf x₀ i).2.1 (regionOf x₀ i).2.2 y.1 then 1 else 0)
+      = PG.piR dt c ((regionOf x₀ i).1.all ++ x₀.out) (regionOf x₀ i).2.1 (regionOf x₀ i).2.2 y.1 := by
+  obtain ⟨h1, h2, h3, _, _, _⟩ := PG.regionOf_ok (dt := dt) w hG hα op0 op1 hup hgood hi
+  exact subtree_conditional_invariant dt c _ h1 _ _ h2 h3 θ m y hy
+
+/-- non-vacuity (both): the chain `0 → 1 → 2` with outlier 3 is well formed with good data for every
+proposal kind, and data point 2 is a clone data point (its region is the one of the examples above) -/
+example : (∀ k, PG.WFT (PG.subCfg k) PG.subFull) ∧ (∀ j ∈ PG.subFull.f.all ++ PG.subFull.out, C19P.GoodIdx PG.subData j) ∧
+    2 ∈ PG.subFull.f.all ∧ (regionOf PG.subFull 2).1.all ++ PG.subFull.out = [2, 1, 3] := by
+  refine ⟨PG.subFull_wft, PG.subFull_good, ?_, ?_⟩ <;> decide +kernel
 
 -- OBLIGATION-OPEN subtree_invariant: only the UNCONDITIONAL statement `Σ_x pOne x · P(subtreeMove x = y) = pOne y` remains, and it is FALSE of model and code (known finding F7: the region is chosen with a state-dependent probability that is never corrected); the conditional statement given the region is proved (`subtree_conditional_invariant`)
 
